@@ -20,6 +20,18 @@ def cases(tier, seed, args):
                         blur=float(rng.uniform(0, 0.45)), noise=float(10.0 ** rng.uniform(-4, -2)),
                         seed=int(rng.integers(1 << 30)), gains=bool(i % 2), gainmode=['mixed', 'tiny', 'huge'][(i // 2) % 3],
                         E=int(rng.integers(K, 7))))
+    # targeted regimes: few dimensions relative to the classes with a heavily blurred start (after the first M-step the class
+    # covariances have K-1 huge directions along the mean differences: the whitening orientation decides the ranking);
+    # unbalanced class sizes (clearly different concentrations between the classes)
+    for i in range(10 if q else 60):
+        K = [3, 4, 4][i % 3]
+        out.append(dict(t='fp', kind='gmm', K=K, D=K + [0, 0, 1][i % 3], F=1, iterations=1, blur=float(rng.uniform(0.2, 0.45)),
+                        noise=float(10.0 ** rng.uniform(-4, -2)), seed=int(rng.integers(1 << 30)), gains=False, gainmode='mixed', E=K))
+    for i in range(8 if q else 48):
+        kind = ['vmfmm', 'vmfcacgmm'][i % 2]
+        out.append(dict(t='fp', kind=kind, K=4, D=int(rng.integers(6, 9)), F=1 + (i % 2), iterations=[2, 5, 3, 20][i % 4], blur=float(rng.uniform(0.3, 0.45)),
+                        noise=float(10.0 ** rng.uniform(-4, -2)), seed=int(rng.integers(1 << 30)), gains=False, gainmode='mixed',
+                        E=int(rng.integers(6, 9)), sizes=[10, 40, 40, 40]))
     return out
 
 
@@ -43,6 +55,10 @@ def run_case(case):
     real = kind in ('gmm', 'vmfmm')
     N = K * (D + 2) + int(rng.integers(0, 12))
     lab = np.stack([rng.permutation(np.arange(N) % K) for _ in range(F)])
+    if case.get('sizes'):
+        base = np.repeat(np.arange(K), case['sizes'])
+        N = len(base)
+        lab = np.stack([rng.permutation(base) for _ in range(F)])
     sizes_ok = all(np.bincount(lab[f], minlength=K).min() >= D + 2 for f in range(F))
     p = protos(rng, F, K, D, not real)
     if real:
